@@ -1,3 +1,81 @@
 package main
 
-func registerExtra(p *Program) {}
+import (
+	"golang.org/x/tools/go/ssa"
+)
+
+func registerExtra(p *Program) {
+	I := p.intrinsics
+	storeData := func(m *Machine, ctxv Value, name string) *StoreData {
+		c, ok := ctxv.(*SymCtx)
+		if !ok {
+			panic(unsupported("vp store observer on a foreign context"))
+		}
+		d := c.stores[name]
+		if d == nil {
+			d = &StoreData{name: name}
+			c.stores[name] = d
+		}
+		return d
+	}
+	I[vpPath+"And"] = func(m *Machine, fr *Frame, fn *ssa.Function, a []Value) Value {
+		var ts []*Term
+		for _, v := range a[0].(Slice).v {
+			ts = append(ts, v.(*Term))
+		}
+		return m.tb.And(ts...)
+	}
+	I[vpPath+"Or"] = func(m *Machine, fr *Frame, fn *ssa.Function, a []Value) Value {
+		var ts []*Term
+		for _, v := range a[0].(Slice).v {
+			ts = append(ts, v.(*Term))
+		}
+		return m.tb.Or(ts...)
+	}
+	I[vpPath+"Implies"] = func(m *Machine, fr *Frame, fn *ssa.Function, a []Value) Value {
+		return m.tb.Implies(a[0].(*Term), a[1].(*Term))
+	}
+	I[vpPath+"BytesEq"] = func(m *Machine, fr *Frame, fn *ssa.Function, a []Value) Value {
+		return m.bytesEq(m.bytesArg(a[0]), m.bytesArg(a[1]))
+	}
+	I[vpPath+"IteU64"] = func(m *Machine, fr *Frame, fn *ssa.Function, a []Value) Value {
+		return m.tb.Ite(a[0].(*Term), a[1].(*Term), a[2].(*Term))
+	}
+	I[vpPath+"HasKey"] = func(m *Machine, fr *Frame, fn *ssa.Function, a []Value) Value {
+		d := storeData(m, a[0], cstr(a[1]))
+		key := m.bytesArg(a[2])
+		present := m.tb.Bool(false)
+		for _, w := range d.writes {
+			if len(w.key) != len(key) {
+				continue
+			}
+			present = m.tb.Ite(m.matchWrite(w, key), m.tb.Bool(w.val != nil), present)
+		}
+		return present
+	}
+	I[vpPath+"SetIf"] = func(m *Machine, fr *Frame, fn *ssa.Function, a []Value) Value {
+		c := a[0].(*Term)
+		if c.False() {
+			return nil
+		}
+		if !c.True() {
+			m.guards = append(m.guards, c)
+			defer func() { m.guards = m.guards[:len(m.guards)-1] }()
+		}
+		m.call(fr, a[1], nil)
+		return nil
+	}
+	I[vpPath+"StoreMark"] = func(m *Machine, fr *Frame, fn *ssa.Function, a []Value) Value {
+		return m.tb.ConstI(int64(len(storeData(m, a[0], cstr(a[1])).writes)), 64)
+	}
+	I[vpPath+"WrittenKey"] = func(m *Machine, fr *Frame, fn *ssa.Function, a []Value) Value {
+		d := storeData(m, a[0], cstr(a[1]))
+		i := m.concreteInt(a[2], "write index")
+		return m.mkBytes(d.writes[i].key)
+	}
+	I[vpPath+"WrittenIsDelete"] = func(m *Machine, fr *Frame, fn *ssa.Function, a []Value) Value {
+		d := storeData(m, a[0], cstr(a[1]))
+		i := m.concreteInt(a[2], "write index")
+		return m.tb.Bool(d.writes[i].val == nil)
+	}
+}
